@@ -18,6 +18,7 @@ import (
 	"github.com/skycoin/skycoin/src/cipher"
 	"github.com/skycoin/skycoin/src/coin"
 	"github.com/skycoin/skycoin/src/params"
+	"github.com/skycoin/skycoin/src/util/fee"
 
 	. "verif/harness/kit"
 	nk "verif/harness/nodekit"
@@ -389,7 +390,7 @@ func errShort(err error) string {
 
 // observe computes the facts of every pooled txn, runs createBlock, and has
 // both nodes execute the result.
-func observe(c *chain, g *gen, maxBlock, maxTxn uint32, shape string) (*obs, error) {
+func observe(c *chain, g *gen, maxBlock, maxTxn uint32, when uint64, shape string) (*obs, error) {
 	w := c.w
 	c.pub.V.Config.MaxBlockTransactionsSize = maxBlock
 	c.pub.V.Config.CreateBlockVerifyTxn.MaxTransactionSize = maxTxn
@@ -442,13 +443,6 @@ func observe(c *chain, g *gen, maxBlock, maxTxn uint32, shape string) (*obs, err
 			nConf++
 		}
 	}
-	// block time: right after the head, or hours / weeks later. Coin hours accrue in
-	// proportion to an input's coins, so fee ranks at block time differ from the ranks at
-	// head time; the documented order (and every fee rule of the chain) uses the HEAD time.
-	when := hb.Time() + 1 + uint64(g.r.Intn(20))
-	if g.r.Chance(55) {
-		when = hb.Time() + 3600*uint64(1+g.r.Intn(400))
-	}
 	var sb coin.SignedBlock
 	var cerr error
 	panicked := Guard(func() { sb, cerr = c.pub.V.VerifCreateBlock(when) })
@@ -488,7 +482,7 @@ func observe(c *chain, g *gen, maxBlock, maxTxn uint32, shape string) (*obs, err
 // boundaryLimit picks a block size limit equal to (or one byte off) the total
 // size of the first k creation-valid pool transactions in fee order. The order
 // computed here only steers generation; it is not part of the oracle.
-func boundaryLimit(c *chain, r *Rng) (uint32, bool) {
+func boundaryLimit(c *chain, r *Rng, when uint64) (uint32, bool) {
 	c.pub.V.Config.CreateBlockVerifyTxn.MaxTransactionSize = params.UserVerifyTxn.MaxTransactionSize
 	pool, err := c.pub.V.GetAllUnconfirmedTransactions()
 	if err != nil {
@@ -498,6 +492,14 @@ func boundaryLimit(c *chain, r *Rng) (uint32, bool) {
 		fpk  uint64
 		h    cipher.SHA256
 		size uint32
+		late uint64 // fee per kB if the fee were computed at the block time instead of the head time
+	}
+	fpkOf := func(f uint64, size uint32) uint64 {
+		k := f * 1024
+		if f != 0 && k/f != 1024 {
+			k = ^uint64(0)
+		}
+		return k / uint64(size)
 	}
 	var es []ent
 	for _, ut := range pool {
@@ -509,7 +511,14 @@ func boundaryLimit(c *chain, r *Rng) (uint32, bool) {
 		if v.Fee != 0 && k/v.Fee != 1024 {
 			k = ^uint64(0)
 		}
-		es = append(es, ent{k / uint64(v.Size), ut.Transaction.Hash(), v.Size})
+		late := k / uint64(v.Size)
+		if uxIn, err := c.pub.V.GetUnspentOutputs(ut.Transaction.In); err == nil {
+			t := ut.Transaction
+			if f, err := fee.TransactionFee(&t, when, uxIn); err == nil {
+				late = fpkOf(f, v.Size)
+			}
+		}
+		es = append(es, ent{k / uint64(v.Size), ut.Transaction.Hash(), v.Size, late})
 	}
 	if len(es) == 0 {
 		return 0, false
@@ -521,6 +530,30 @@ func boundaryLimit(c *chain, r *Rng) (uint32, bool) {
 		return strings.Compare(string(es[i].h[:]), string(es[j].h[:])) < 0
 	})
 	k := 1 + r.Intn(len(es))
+	// prefer a cut that separates two transactions whose ranks would swap at block time
+	if r.Chance(70) {
+		var ks []int
+		for i := 0; i+1 < len(es); i++ {
+			maxLateRest := uint64(0)
+			for j := i + 1; j < len(es); j++ {
+				if es[j].late > maxLateRest {
+					maxLateRest = es[j].late
+				}
+			}
+			minLateTop := ^uint64(0)
+			for j := 0; j <= i; j++ {
+				if es[j].late < minLateTop {
+					minLateTop = es[j].late
+				}
+			}
+			if maxLateRest > minLateTop {
+				ks = append(ks, i+1)
+			}
+		}
+		if len(ks) > 0 {
+			k = ks[r.Intn(len(ks))]
+		}
+	}
 	var sum uint32
 	for i := 0; i < k; i++ {
 		sum += es[i].size
@@ -681,15 +714,22 @@ func run(args []string) error {
 				maxBlock = uint32(100 + r.Intn(300))
 				maxTxn = params.UserVerifyTxn.MaxTransactionSize
 			}
+			// block time: right after the head, or hours / weeks later. Coin hours accrue in
+			// proportion to an input's coins, so fee ranks at block time differ from the ranks at
+			// head time; the documented order (and every fee rule of the chain) uses the HEAD time.
+			when := g.headT + 1 + uint64(r.Intn(20))
+			if r.Chance(55) {
+				when = g.headT + 3600*uint64(1+r.Intn(400))
+			}
 			if !forceDefault && r.Chance(40) {
 				// block limit exactly at (or one byte around) a prefix sum of the valid
 				// transactions in fee order: the boundary of TruncateBytesTo
-				if mb, ok := boundaryLimit(c, r); ok {
+				if mb, ok := boundaryLimit(c, r, when); ok {
 					maxBlock, maxTxn = mb, params.UserVerifyTxn.MaxTransactionSize
 					hist.Add("limit:at-prefix-sum")
 				}
 			}
-			ob, err := observe(c, g, maxBlock, maxTxn, strings.Join(shapeLog, ","))
+			ob, err := observe(c, g, maxBlock, maxTxn, when, strings.Join(shapeLog, ","))
 			if err != nil {
 				c.close()
 				return err
